@@ -53,7 +53,7 @@ def chunks(tier, seed):
         of = {5: 1, 6: 2, 7: 4}[n]
         for k in range(of):
             out.append({"kind": "enum", "ns": [n], "shard": k, "of": of, "key": "enum%d.%d" % (n, k)})
-    per = 350 if tier == "quick" else 4000
+    per = 350 if tier == "quick" else 10000
     for k in range(NCH_RAND):
         out.append({"kind": "rand", "n": per, "key": "rand%d" % k})
     return out
